@@ -3,9 +3,12 @@ skfem.element.__all__ on every run (so a newly exported element is covered
 without editing /verif) and classified by base class."""
 from __future__ import annotations
 
+import logging
 import math
 
 import numpy as np
+
+logging.getLogger("skfem").setLevel(logging.ERROR)      # e.g. "Replace ElementQuadP(2) by ElementQuad2() for performance." on every construction
 
 
 def exported():
